@@ -478,6 +478,21 @@ pub fn run(tier: &str, seed: u64, s: &mut Sink) {
         }
     }
 
+    // ---- the two 32-bit MSB-first "bursts" that are multiples of the generator (C03_chunk_burst32_msb_first_refuted):
+    // documented witnesses, accepted by model and implementation alike when they fall inside one codeword
+    for n in [5usize, 8, 23, 64] {
+        let base = valid(&mut r, &devs, n).bytes();
+        for pat in [[0x62u8, 0x95, 0xe3, 0xfd, 0x80], [0x01, 0x03, 0x83, 0x6b, 0xf2]] {
+            for off in [16usize, 18, 20, 20 + n - 5, base.len() - 5, base.len() - 7] {
+                let mut q = base.clone();
+                for (i, p) in pat.iter().enumerate() {
+                    q[off + i] ^= p;
+                }
+                emit(s, "burst-msb-first-generator-multiple", &q);
+            }
+        }
+    }
+
     // ---- corruptions of accepted chunks
     let small: Vec<usize> = if thorough { (1..=64).chain([100, 255, 256]).collect() } else { vec![1, 2, 3, 4, 5, 8, 13, 32] };
     for (i, &n) in small.iter().enumerate() {
